@@ -3,6 +3,7 @@ mod corpus;
 mod engine;
 mod explore;
 mod gen;
+mod guard_alloc;
 mod jobs;
 mod jsongen;
 mod opseq;
@@ -12,6 +13,9 @@ mod tiktoken_data;
 mod vocab;
 
 use common::{Ctx, Tier};
+
+#[global_allocator]
+static GLOBAL: guard_alloc::Guard = guard_alloc::Guard;
 
 fn main() {
     // anyhow captures a backtrace (global lock) per error when RUST_BACKTRACE is set
